@@ -49,108 +49,123 @@ def check(prog, rep):
     okskip = all(any("not line" in U(tst) for tst, p in guards_of(s) if p) for s in skips)
     r1.add("no-bond-skipped", okskip, f"bond lines skipped only when blank ({len(skips)} continue statement(s))", w)
 
-    # ------------------------------------------------------------------ R2
-    r2 = rep.rule("R2", "equilibration only redistributes charge: injection/scale pairing, read-then-write, antisymmetric transfer", floor=5)
-    eq = prog.func("ligand/peoe.py", "equilibrate").node
-    we = f"pdb2pqr/ligand/peoe.py:{eq.lineno} (equilibrate)"
-    src = U(eq)
-    init = [s for s in iter_stmts(eq.body) if isinstance(s, ast.Assign) and U(s.targets[0]).endswith(".equil_formal_charge") and "charge" in U(s.value)]
-    final = [s for s in eq.body if isinstance(s, ast.For) and any(isinstance(x, ast.Assign) and U(x.targets[0]).endswith(".charge") and "*" in U(x.value) for x in s.body)]
-    ok_scale = False
-    if init and final:
-        iv = U(init[0].value)
-        fv = U([x for x in final[0].body if isinstance(x, ast.Assign)][0].value)
-        scale_param = next((a.arg for a in eq.args.args if a.arg in iv and a.arg in fv and a.arg != "atoms"), None)
-        ok_scale = scale_param is not None and (f"(1.0 / {scale_param})" in iv or f"/ {scale_param}" in iv) and \
-            fv.replace(" ", "") in (f"{scale_param}*atom.charge", f"atom.charge*{scale_param}")
-        r2.add("scale-pairing", ok_scale, f"injection {iv!r} and final scaling {fv!r} use the same factor {scale_param!r}", we)
-    else:
-        r2.bad("scale-pairing", "initial division / final multiplication by the scaling factor not found", we)
-    cyc = [s for s in eq.body if isinstance(s, ast.For) and isinstance(s.iter, ast.Call) and U(s.iter.func) == "range"]
-    if not cyc:
-        r2.bad("cycle-share", "cycle loop not found", we)
-        return
-    cyc = cyc[0]
-    ncy = U(cyc.iter.args[0]) if len(cyc.iter.args) == 1 else None
-    share = [n for n in ast.walk(cyc) if isinstance(n, ast.BinOp) and "equil_formal_charge" in U(n) and isinstance(n.op, ast.Mult)]
-    ok_share = bool(share) and ncy is not None and any(U(s_).replace(" ", "") in (f"(1.0/{ncy})*atom.equil_formal_charge", f"1.0/{ncy}*atom.equil_formal_charge",
-                                                                                    f"atom.equil_formal_charge/{ncy}", f"(1/{ncy})*atom.equil_formal_charge") for s_ in share)
-    r2.add("cycle-share", ok_share, f"the loop runs range({ncy}) and each cycle injects {[U(s_) for s_ in share][:1]}: the shares add up to the "
-           "whole scaled formal charge", we)
-    # read phase / write phase
-    inner = [s for s in cyc.body if isinstance(s, ast.For)]
-    ok_phase = False
-    if len(inner) >= 2:
-        first_stores = {U(x.targets[0] if isinstance(x, ast.Assign) else x.target) for x in iter_stmts(inner[0].body) if isinstance(x, (ast.Assign, ast.AugAssign))
-                        and isinstance(x.targets[0] if isinstance(x, ast.Assign) else x.target, ast.Attribute)}
-        second_stores = {U(x.targets[0] if isinstance(x, ast.Assign) else x.target) for x in iter_stmts(inner[1].body) if isinstance(x, (ast.Assign, ast.AugAssign))}
-        ok_phase = not any(s_.endswith(".charge") for s_ in first_stores) and any(s_.endswith(".charge") for s_ in second_stores) \
-            and all(U(lp.iter) == "atoms" for lp in inner[:2])
-        r2.add("read-then-write", ok_phase, f"first pass over all atoms stores {sorted(first_stores)} (no charge), second pass stores {sorted(second_stores)}", we)
-    else:
-        r2.bad("read-then-write", "the cycle does not consist of a read pass followed by a write pass", we)
-    # antisymmetry of the transfer term
-    pair = [n for n in ast.walk(inner[0]) if isinstance(n, ast.For) and "bonded_atoms" in U(n.iter)] if inner else []
-    if not pair:
-        r2.bad("antisymmetric-transfer", "loop over bonded atoms not found", we)
-    else:
-        pl = pair[0]
-        a1 = U(pl.iter).split(".")[0]
-        a2 = U(pl.target)
-        diff = [s for s in pl.body if isinstance(s, ast.Assign) and U(s.targets[0]) == "chi_diff"]
-        sel = [s for s in pl.body if isinstance(s, ast.If) and any("chi_norm" in U(x) for x in s.body)]
-        ok = bool(diff) and bool(sel) and U(diff[0].value) in ("chi2 - chi1",)
-        table = {}
-        if ok:
-            for order in ("lt", "gt"):
-                def hook(interp, call):
-                    if U(call.func) == "electronegativity":
-                        return ("norm-of", U(call.args[1]).split(".")[0])
-                    raise AnalysisError(f"unsupported call {U(call.func)}")
-                it = Interp({"chi1": Sym("chi1"), "chi2": Sym("chi2"), "__order__chi1_chi2": order}, call_hook=hook)
-                it.run([sel[0]])
-                table[order] = it.env.get("chi_norm")
-            # under the swap, ordering lt <-> gt and atom roles a1 <-> a2: the physical atom chosen must be the same
-            phys = {}
-            for order in ("lt", "gt"):
-                phys[order] = table[order][1]
-            swapped_ok = {a1: a2, a2: a1}.get(phys["gt"]) == phys["lt"]
-            ok = swapped_ok
-        acc = [s for s in pl.body if isinstance(s, ast.AugAssign) and U(s.target).endswith(".delta_charge")]
-        from ..core import expand_temps
-        ok = ok and bool(acc) and any(t_ in x_ for t_ in ("chi_diff / chi_norm", "(chi2 - chi1) / chi_norm")
-                                      for x_ in (U(acc[0].value), U(expand_temps(acc[0].value, eq))))
-        per_atom = [n.id for n in ast.walk(acc[0].value) if isinstance(n, ast.Name) and n.id in (a1, a2)] if acc else ["?"]
-        ok = ok and not per_atom
-        r2.add("antisymmetric-transfer", ok,
-               f"transfer = {U(acc[0].value) if acc else '?'} with chi_diff = {U(diff[0].value) if diff else '?'}; normalisation chosen: {table}; "
-               "swapping the two atoms negates chi_diff and selects the same physical atom's normaliser, and the damping factor is "
-               "atom independent" if ok else f"the transfer term is not antisymmetric under swapping the atoms: {table}", we)
-    # within the cycle the running charge changes only by '+= delta (+ share)': anything else (clamping, rescaling) loses charge
-    cyc_stores = [x for x in iter_stmts(cyc.body) if isinstance(x, (ast.Assign, ast.AugAssign))
-                  and U(x.targets[0] if isinstance(x, ast.Assign) else x.target).endswith(".charge")]
-    bad_st = []
-    for x in cyc_stores:
-        if isinstance(x, ast.AugAssign) and isinstance(x.op, ast.Add):
-            v = U(x.value).replace(" ", "")
-            terms = {"atom.delta_charge", f"atom.delta_charge+1.0/{ncy}*atom.equil_formal_charge", f"atom.delta_charge+(1.0/{ncy})*atom.equil_formal_charge"}
-            if v in terms:
-                continue
-        bad_st.append(U(x)[:60])
-    r2.add("cycle-updates", bool(cyc_stores) and not bad_st,
-           f"stores to the running charge inside the cycle: {[U(x)[:40] for x in cyc_stores]}" + (f"; not a pure transfer/injection: {bad_st}" if bad_st else
-           " - pure additions of the antisymmetric transfer and the per-cycle share"), we)
-    # ... and after the cycles only the uniform scaling touches it
-    post = [x for st_ in eq.body[eq.body.index(cyc) + 1:] for x in iter_stmts([st_]) if isinstance(x, (ast.Assign, ast.AugAssign))
-            and U(x.targets[0] if isinstance(x, ast.Assign) else x.target).endswith(".charge")]
-    r2.add("post-cycle-updates", len(post) == 1, f"stores to the charge after the cycles: {[U(x)[:40] for x in post]} (only the uniform scaling)", we)
-    r2.add("initial-reset", any(isinstance(s, ast.Assign) and U(s.targets[0]) == "atom.charge" and U(s.value) in ("0", "0.0") for s in iter_stmts(eq.body)),
-           "running charges start from zero after the formal charge has been saved", we)
-    ac = prog.func("ligand/mol2.py", "Mol2Molecule.assign_charges").node
-    okac = "atom.charge = atom.formal_charge" in U(ac) and "peoe.equilibrate(self.atoms.values())" in U(ac)
-    r2.add("all-atoms-equilibrated", okac, "assign_charges seeds every atom with its formal charge and equilibrates the whole molecule",
-           f"pdb2pqr/ligand/mol2.py:{ac.lineno} (assign_charges)")
+    # ------------------------------------------------------------------ R2 (shape argument; the fallback for when the model molecules of R8 cannot
+    # be evaluated: there the charge sums before and after equilibration are compared directly)
+    def peoe_shape_argument():
+        r2 = rep.rule("R2", "equilibration only redistributes charge: injection/scale pairing, read-then-write, antisymmetric transfer", floor=5)
+        eq = prog.func("ligand/peoe.py", "equilibrate").node
+        we = f"pdb2pqr/ligand/peoe.py:{eq.lineno} (equilibrate)"
+        src = U(eq)
+        init = [s for s in iter_stmts(eq.body) if isinstance(s, ast.Assign) and U(s.targets[0]).endswith(".equil_formal_charge") and "charge" in U(s.value)]
+        final = [s for s in eq.body if isinstance(s, ast.For) and any(isinstance(x, ast.Assign) and U(x.targets[0]).endswith(".charge") and "*" in U(x.value) for x in s.body)]
+        ok_scale = False
+        if init and final:
+            iv = U(init[0].value)
+            fv = U([x for x in final[0].body if isinstance(x, ast.Assign)][0].value)
+            scale_param = next((a.arg for a in eq.args.args if a.arg in iv and a.arg in fv and a.arg != "atoms"), None)
+            ok_scale = scale_param is not None and (f"(1.0 / {scale_param})" in iv or f"/ {scale_param}" in iv) and \
+                fv.replace(" ", "") in (f"{scale_param}*atom.charge", f"atom.charge*{scale_param}")
+            r2.add("scale-pairing", ok_scale, f"injection {iv!r} and final scaling {fv!r} use the same factor {scale_param!r}", we)
+        else:
+            r2.bad("scale-pairing", "initial division / final multiplication by the scaling factor not found", we)
+        cyc = [s for s in eq.body if isinstance(s, ast.For) and isinstance(s.iter, ast.Call) and U(s.iter.func) == "range"]
+        if not cyc:
+            r2.bad("cycle-share", "cycle loop not found", we)
+            return
+        cyc = cyc[0]
+        ncy = U(cyc.iter.args[0]) if len(cyc.iter.args) == 1 else None
+        share = [n for n in ast.walk(cyc) if isinstance(n, ast.BinOp) and "equil_formal_charge" in U(n) and isinstance(n.op, ast.Mult)]
+        ok_share = bool(share) and ncy is not None and any(U(s_).replace(" ", "") in (f"(1.0/{ncy})*atom.equil_formal_charge", f"1.0/{ncy}*atom.equil_formal_charge",
+                                                                                        f"atom.equil_formal_charge/{ncy}", f"(1/{ncy})*atom.equil_formal_charge") for s_ in share)
+        r2.add("cycle-share", ok_share, f"the loop runs range({ncy}) and each cycle injects {[U(s_) for s_ in share][:1]}: the shares add up to the "
+               "whole scaled formal charge", we)
+        # read phase / write phase
+        inner = [s for s in cyc.body if isinstance(s, ast.For)]
+        ok_phase = False
+        if len(inner) >= 2:
+            first_stores = {U(x.targets[0] if isinstance(x, ast.Assign) else x.target) for x in iter_stmts(inner[0].body) if isinstance(x, (ast.Assign, ast.AugAssign))
+                            and isinstance(x.targets[0] if isinstance(x, ast.Assign) else x.target, ast.Attribute)}
+            second_stores = {U(x.targets[0] if isinstance(x, ast.Assign) else x.target) for x in iter_stmts(inner[1].body) if isinstance(x, (ast.Assign, ast.AugAssign))}
+            ok_phase = not any(s_.endswith(".charge") for s_ in first_stores) and any(s_.endswith(".charge") for s_ in second_stores) \
+                and all(U(lp.iter) == "atoms" for lp in inner[:2])
+            r2.add("read-then-write", ok_phase, f"first pass over all atoms stores {sorted(first_stores)} (no charge), second pass stores {sorted(second_stores)}", we)
+        else:
+            r2.bad("read-then-write", "the cycle does not consist of a read pass followed by a write pass", we)
+        # antisymmetry of the transfer term
+        pair = [n for n in ast.walk(inner[0]) if isinstance(n, ast.For) and "bonded_atoms" in U(n.iter)] if inner else []
+        if not pair:
+            r2.bad("antisymmetric-transfer", "loop over bonded atoms not found", we)
+        else:
+            pl = pair[0]
+            a1 = U(pl.iter).split(".")[0]
+            a2 = U(pl.target)
+            diff = [s for s in pl.body if isinstance(s, ast.Assign) and U(s.targets[0]) == "chi_diff"]
+            sel = [s for s in pl.body if isinstance(s, ast.If) and any("chi_norm" in U(x) for x in s.body)]
+            ok = bool(diff) and bool(sel) and U(diff[0].value) in ("chi2 - chi1",)
+            table = {}
+            if ok:
+                for order in ("lt", "gt"):
+                    def hook(interp, call):
+                        if U(call.func) == "electronegativity":
+                            return ("norm-of", U(call.args[1]).split(".")[0])
+                        raise AnalysisError(f"unsupported call {U(call.func)}")
+                    it = Interp({"chi1": Sym("chi1"), "chi2": Sym("chi2"), "__order__chi1_chi2": order}, call_hook=hook)
+                    it.run([sel[0]])
+                    table[order] = it.env.get("chi_norm")
+                # under the swap, ordering lt <-> gt and atom roles a1 <-> a2: the physical atom chosen must be the same
+                phys = {}
+                for order in ("lt", "gt"):
+                    phys[order] = table[order][1]
+                swapped_ok = {a1: a2, a2: a1}.get(phys["gt"]) == phys["lt"]
+                ok = swapped_ok
+            acc = [s for s in pl.body if isinstance(s, ast.AugAssign) and U(s.target).endswith(".delta_charge")]
+            from ..core import expand_temps
+            ok = ok and bool(acc) and any(t_ in x_ for t_ in ("chi_diff / chi_norm", "(chi2 - chi1) / chi_norm")
+                                          for x_ in (U(acc[0].value), U(expand_temps(acc[0].value, eq))))
+            per_atom = [n.id for n in ast.walk(acc[0].value) if isinstance(n, ast.Name) and n.id in (a1, a2)] if acc else ["?"]
+            ok = ok and not per_atom
+            r2.add("antisymmetric-transfer", ok,
+                   f"transfer = {U(acc[0].value) if acc else '?'} with chi_diff = {U(diff[0].value) if diff else '?'}; normalisation chosen: {table}; "
+                   "swapping the two atoms negates chi_diff and selects the same physical atom's normaliser, and the damping factor is "
+                   "atom independent" if ok else f"the transfer term is not antisymmetric under swapping the atoms: {table}", we)
+        # within the cycle the running charge changes only by '+= delta (+ share)': anything else (clamping, rescaling) loses charge
+        cyc_stores = [x for x in iter_stmts(cyc.body) if isinstance(x, (ast.Assign, ast.AugAssign))
+                      and U(x.targets[0] if isinstance(x, ast.Assign) else x.target).endswith(".charge")]
+        bad_st = []
+        for x in cyc_stores:
+            if isinstance(x, ast.AugAssign) and isinstance(x.op, ast.Add):
+                v = U(x.value).replace(" ", "")
+                terms = {"atom.delta_charge", f"atom.delta_charge+1.0/{ncy}*atom.equil_formal_charge", f"atom.delta_charge+(1.0/{ncy})*atom.equil_formal_charge"}
+                if v in terms:
+                    continue
+            bad_st.append(U(x)[:60])
+        r2.add("cycle-updates", bool(cyc_stores) and not bad_st,
+               f"stores to the running charge inside the cycle: {[U(x)[:40] for x in cyc_stores]}" + (f"; not a pure transfer/injection: {bad_st}" if bad_st else
+               " - pure additions of the antisymmetric transfer and the per-cycle share"), we)
+        # ... and after the cycles only the uniform scaling touches it
+        post = [x for st_ in eq.body[eq.body.index(cyc) + 1:] for x in iter_stmts([st_]) if isinstance(x, (ast.Assign, ast.AugAssign))
+                and U(x.targets[0] if isinstance(x, ast.Assign) else x.target).endswith(".charge")]
+        r2.add("post-cycle-updates", len(post) == 1, f"stores to the charge after the cycles: {[U(x)[:40] for x in post]} (only the uniform scaling)", we)
+        r2.add("initial-reset", any(isinstance(s, ast.Assign) and U(s.targets[0]) == "atom.charge" and U(s.value) in ("0", "0.0") for s in iter_stmts(eq.body)),
+               "running charges start from zero after the formal charge has been saved", we)
+        ac = prog.func("ligand/mol2.py", "Mol2Molecule.assign_charges").node
+        okac = "atom.charge = atom.formal_charge" in U(ac) and "peoe.equilibrate(self.atoms.values())" in U(ac)
+        r2.add("all-atoms-equilibrated", okac, "assign_charges seeds every atom with its formal charge and equilibrates the whole molecule",
+               f"pdb2pqr/ligand/mol2.py:{ac.lineno} (assign_charges)")
 
+
+    try:
+        sums = peoe_conservation_on_models(prog)
+    except AnalysisError:
+        sums = None
+    if sums is None:
+        peoe_shape_argument()
+    else:
+        r2 = rep.rule("R2", "equilibration only redistributes charge: on model molecules the charges afterwards add up to the formal charges", floor=5)
+        for label, before, after in sums:
+            ok = isinstance(after, float) and abs(after - before) < 1e-9
+            r2.add(f"conserved|{label}", ok, f"sum of formal charges {before:g}, sum after equilibration {after if not isinstance(after, float) else round(after, 12)}"
+                   + ("" if ok else " - charge is created or lost"), "pdb2pqr/ligand/peoe.py (equilibrate)")
     # ------------------------------------------------------------------ R3
     r3 = rep.rule("R3", "every ligand radius is a positive table value; lookup by Sybyl type then element, primary then secondary", floor=3)
     consts = prog.module_constants("ligand/__init__.py")
@@ -403,3 +418,42 @@ def rule_polymer_atoms_are_ATOM(prog, rep):
                   f"{cls} built from records with two alternate locations of {names[:2]}: atoms {got_names}" +
                   ("" if sorted(got_names) == sorted(names) else " - an atom is held twice, so it is parameterised and written twice") +
                   ("" if first_kept else " - a later alternate location replaced the first"), where)
+
+
+def peoe_conservation_on_models(prog):
+    """peoe.equilibrate evaluated (numerically, by the interpreter) on model molecules chosen so that every arm of the transfer runs: a pair, a
+    chain, a branched and a cyclic skeleton, with electronegativity orderings both ways, neutral and charged, including a formal charge of three
+    units on one atom (running charges then leave the range in which the electronegativity polynomial is trusted).  Equilibration may only
+    move charge: the sum afterwards must equal the sum of the formal charges.  -> [(label, sum before, sum after)]"""
+    from ..guards import Flow, Obj
+    from ..objinterp import ObjRunner
+    skeletons = {
+        "pair": (["C.3", "O.3"], [(0, 1)]),
+        "pair reversed": (["O.3", "C.3"], [(0, 1)]),
+        "chain": (["N.4", "C.3", "O.co2"], [(0, 1), (1, 2)]),
+        "branched": (["C.2", "O.co2", "O.co2", "C.3", "H"], [(0, 1), (0, 2), (0, 3), (3, 4)]),
+        "ring": (["C.ar", "N.ar", "C.ar", "S.3"], [(0, 1), (1, 2), (2, 3), (3, 0)]),
+    }
+    charges = {"pair": [(0.0, 0.0), (1.0, 0.0), (0.0, -1.0), (3.0, 0.0)], "pair reversed": [(0.0, 0.0), (-1.0, 0.0), (0.0, -3.0)],
+               "chain": [(1.0, 0.0, -1.0), (1.0, 0.0, 0.0), (0.0, 0.0, -0.5)], "branched": [(0.0, -0.5, -0.5, 0.0, 0.0), (0.0, 0.0, 0.0, 0.0, 0.0)],
+               "ring": [(0.0, 1.0, 0.0, 0.0), (0.0, 0.0, 0.0, -2.0)]}
+    out = []
+    for name, (types, bonds) in skeletons.items():
+        for formal in charges[name]:
+            atoms = [Obj({"__class__": "Mol2Atom", "name": f"{t_.split('.')[0]}{k}", "type": t_, "charge": q, "formal_charge": q, "bonded_atoms": [], "poly_terms": None,
+                          "delta_charge": 0.0, "equil_formal_charge": 0.0, "element": t_.split(".")[0]}) for k, (t_, q) in enumerate(zip(types, formal))]
+            for i, j in bonds:
+                atoms[i]["bonded_atoms"].append(atoms[j])
+                atoms[j]["bonded_atoms"].append(atoms[i])
+            run = ObjRunner(prog, "ligand/peoe.py")
+            label = f"{name} {types} formal {list(formal)}"
+            try:
+                res = run.call_function("ligand/peoe.py", "equilibrate", atoms)
+            except Flow as fl:
+                out.append((label, sum(formal), f"stops with {fl.value}"))
+                continue
+            final = [a["charge"] for a in (res if isinstance(res, list) else atoms)]
+            if not all(isinstance(x, (int, float)) for x in final):
+                raise AnalysisError("equilibrate: charges are not numbers on the model molecule")
+            out.append((label, sum(formal), sum(final)))
+    return out
